@@ -110,6 +110,25 @@ def types2():
             yield f"{e1} | {e2}", ("union", (m1, m2))
 
 
+def types_deep():
+    """Thorough tier, true depth 2: every depth-1 term over the 8 representative base types, placed in every argument position
+    of every constructor (the other position, where there is one, ranging over the representatives)."""
+    l1 = [(e, m) for e, m in dict(types(1, INNER)).items() if (e, m) not in BASE and e != "()"]
+    for ex, mx in l1:
+        yield f"list[{ex}]", ("list", mx)
+        yield f"set[{ex}]", ("set", mx)
+        yield f"tuple[{ex}, ...]", ("tuplevar", mx)
+        yield f"({ex},)", ("tuple", (mx,))
+        for ei, mi in INNER:
+            yield f"dict[{ex}, {ei}]", ("dict", mx, mi)
+            yield f"dict[{ei}, {ex}]", ("dict", mi, mx)
+            yield f"({ex}, {ei})", ("tuple", (mx, mi))
+            yield f"({ei}, {ex})", ("tuple", (mi, mx))
+            yield f"{ei} | {ex}", ("union", (mi, mx))
+            if not ex.startswith("("):
+                yield f"{ex} | {ei}", ("union", (mx, mi))
+
+
 def flatten_union(alts):
     out = []
     for a in alts:
@@ -191,6 +210,11 @@ def run(tier):
         if e not in seen:
             seen.add(e)
             tys.append((e, m))
+    if not q:
+        for e, m in types_deep():
+            if e not in seen:
+                seen.add(e)
+                tys.append((e, m))
     vals = "V = [\n" + "".join(f"    {e},\n" for e, _ in VALUES) + "]\n"
     specs, meta = [], []
     CH = 40
